@@ -30,6 +30,11 @@ class Minimal(object):
         if sig not in self.fails or size < self.fails[sig][0]:
             self.fails[sig] = (size, key_tail, detail)
 
+    def merge(self, fails):
+        for sig, v in fails.items():
+            if sig not in self.fails or v[0] < self.fails[sig][0]:
+                self.fails[sig] = v
+
     def report(self):
         for sig, (size, tail, detail) in sorted(self.fails.items()):
             self.ctx.violation("%s:%s" % (sig, tail), detail)
@@ -60,7 +65,7 @@ def driver_list(n_values, k, reduced=False):
     reduced: flows of pairs with equal contexts lie between bare data and differing contexts, which get the full
     list; they are run through every driver but with two bufsizes only."""
     ds = [("run", None, "tuple", True, "alone"), ("fill_compute_seq", None, "tuple", True, "alone"),
-          ("fill_seq", None, "tuple", True, "alone")]
+          ("fill_seq", None, "tuple", True, "alone"), ("persist", None, "tuple", True, "alone")]
     sizes = bufsizes(n_values)
     if reduced:
         sizes = [sizes[k % len(sizes)], sizes[(k + 2) % len(sizes)]]
@@ -83,9 +88,12 @@ def replay_chain(ctx, mini, rec, k):
     exp = [flowlib.norm_spec_val(v) for v in rec["out"]]
     size = (len(ch["pre"]) + len(ch["post"]), n_values, fl.chain_key(ch))
     tail = "%s:N=%d:%s" % (fl.chain_key(ch), n_values, pairs)
-    for drv, bs, form, copy_buf, place in driver_list(n_values, k, reduced=(pairs == "pairs")):
-        out = outcome(lambda: fl.drive_chain(ch, n_values, pairs, drv, bs, copy_buf=copy_buf, form=form, place=place),
-                      flowlib.project)
+    drivers = driver_list(n_values, k, reduced=(pairs == "pairs"))
+    if not ch["pre"] and not ch["post"]:
+        drivers.append(("split", bufsizes(n_values)[k % (n_values + 3)], "bare", True, "alone"))
+    for drv, bs, form, copy_buf, place in drivers:
+        out = outcome(lambda: fl.drive_chain(ch, n_values, pairs, drv, bs, copy_buf=copy_buf, form=form, place=place,
+                                             variant=k), flowlib.project)
         ctx.case(["chain", drv, bs, form, place, ch, n_values, pairs], nontrivial=n_values > 0)
         if out != exp:
             kind = out if isinstance(out, str) else "results"
@@ -95,6 +103,17 @@ def replay_chain(ctx, mini, rec, k):
                       (":" + place if place != "alone" else ""),
                       {"chain": ch, "N": n_values, "flow": pairs, "driver": drv, "bufsize": bs, "form": form,
                        "place": place, "expected": exp, "observed": out})
+    # chains that do not look at the data: the flow values are None, 0, "", {}, [], False, (0, {}), 0.0, ()
+    if pairs == "bare" and ch["acc"] in ("store1", "last", "cnt") and \
+            all(st["t"] in ("slice", "cfilter") for st in ch["pre"] + ch["post"]):
+        want = [repr(x["d"] if ch["acc"] == "cnt" else fl.nothing(x["d"])) for x in rec["out"]]
+        for drv, bs in (("run", None), ("fill_compute_seq", None), ("split", bufsizes(n_values)[k % (n_values + 3)])):
+            got = outcome(lambda: fl.drive_chain(ch, n_values, pairs, drv, bs, place="afterstop" if drv == "split" else "alone",
+                                                 values=fl.nothing), repr)
+            ctx.case(["chain-falsy-values", drv, bs, ch, n_values], nontrivial=n_values > 0)
+            if got != want:
+                mini.fail("chain:falsy-values:%s" % drv, size, tail, {"chain": ch, "N": n_values, "expected": want,
+                                                                      "observed": got})
     # what reaches the accumulator
     acc = fl.RecAcc(fl.build_acc(ch["acc"]))
     out = outcome(lambda: fl.drive_chain(ch, n_values, pairs, "fill_compute_seq", acc=acc), flowlib.project)
@@ -390,14 +409,16 @@ def random_stage(rnd, alphabet):
     if k == "cfilter":
         return {"t": "cfilter", "k": rnd.choice(["odd", "variable", "t", "k", "output"]), "form": rnd.choice(["str", "fn"])}
     if k == "varattr":
-        return {"t": "map", "f": "var", "attr": rnd.choice(["run", "fill", "compute", "request", "fill_into", "call"])}
+        return {"t": "map", "f": "var", "attr": rnd.choice(["run", "fill", "compute", "request", "fill_into", "call", "reset", "all"])}
+    if k == "runifdup":
+        return {"t": "runifdup", "k": rnd.choice(["odd", "variable", "t"])}
     if k == "crunif":
         return {"t": "crunif", "k": rnd.choice(["odd", "variable", "t", "k"]), "f": rnd.choice(["inc", "dbl", "drop", "tag"])}
     return flowlib.random_stage(rnd, [k])
 
 
 def random_chain(rnd):
-    pre = [random_stage(rnd, ["map", "map", "filter", "slice", "slice", "runif", "cfilter", "cfilter", "crunif", "varattr"])
+    pre = [random_stage(rnd, ["map", "map", "filter", "slice", "slice", "runif", "cfilter", "cfilter", "crunif", "varattr", "runifdup"])
            for _ in range(rnd.randint(0, 4))]
     pre = [st for st in pre if st.get("f") != "id"]
     post = [flowlib.random_stage(rnd, ["map", "filter", "slice", "count", "sum"]) for _ in range(rnd.randint(0, 2))]
@@ -410,13 +431,13 @@ def record_random(ctx, mini, rnd, count):
     for _ in range(count):
         ch = random_chain(rnd)
         n_values, pairs = rnd.randint(0, 12), rnd.choice(["bare", "pairs", "ctx", "ctx"])
-        drv = rnd.choice(["run", "fill_compute_seq", "fill_seq", "split", "split", "split"])
+        drv = rnd.choice(["run", "fill_compute_seq", "fill_seq", "persist", "split", "split", "split"])
         bs = rnd.choice(bufsizes(n_values)) if drv == "split" else NONE
         place = rnd.choice(["alone", "first", "middle", "middle", "last", "afterstop", "afterstop"]) if drv == "split" else "alone"
         copy_buf = place != "alone" or rnd.random() < 0.7
         form = rnd.choice(["tuple", "fcseq"])
-        out = outcome(lambda: fl.drive_chain(ch, n_values, pairs, drv, bs, copy_buf=copy_buf, form=form, place=place),
-                      flowlib.project)
+        out = outcome(lambda: fl.drive_chain(ch, n_values, pairs, drv, bs, copy_buf=copy_buf, form=form, place=place,
+                                             variant=rnd.randint(0, 2)), flowlib.project)
         if isinstance(out, str):
             trace.append({"e": out, "ch": ch, "N": n_values, "fk": pairs, "drv": drv, "bs": bs, "place": place})
         else:
@@ -445,6 +466,21 @@ def mc_and_export(ctx, module, cfg, must_cover, min_records):
     return res.records
 
 
+def _replay_chains(items):
+    col, mini = fl.Collector(), Minimal(None)
+    for k, rec in items:
+        replay_chain(col, mini, rec, k)
+        replay_extra(col, mini, rec, k)
+    return col.counts(), mini.fails
+
+
+def _replay_adapters(recs):
+    col, mini = fl.Collector(), Minimal(None)
+    for rec in recs:
+        replay_adapter(col, mini, rec)
+    return col.counts(), mini.fails
+
+
 def run(ctx):
     tag = "thorough" if ctx.thorough else "quick"
     ctx.assume("pre/post elements and accumulators are those of the FlowSem vocabulary (callables, Variable, "
@@ -453,7 +489,8 @@ def run(ctx):
                "accumulator itself filled with the values the specification says reach it")
     ctx.assume("adapter method names are strings; elements are synthetic classes with one tagged method per capability, "
                "plus real objects whose capability record is extracted by introspection")
-    actions = ("RunFeed", "RunEof", "FillValue", "FillCompute", "SplitRead", "SplitFill", "SplitEnd")
+    actions = ("RunFeed", "RunEof", "FillValue", "FillCompute", "PersistValue", "PersistCompute", "ComputeAgain",
+               "SplitRead", "SplitFill", "SplitEnd")
     ctx.mc("FillSeq", "FillSeq_%s.cfg" % tag)
     # per-action coverage (vacuity guard) on a small configuration: -coverage doubles the cost of the large one
     ctx.mc("FillSeq", "FillSeq_cover.cfg", coverage=True, must_cover=actions)
@@ -474,17 +511,20 @@ def run(ctx):
     recs = ctx.export("FillSeq", "FillSeq_%s_export.cfg" % tag, min_records=1000)
     if ctx.thorough:
         recs += ctx.export("FillSeq", "FillSeq_wide_export.cfg", min_records=1000)
-    for k, rec in enumerate(recs):
-        replay_chain(ctx, mini, rec, k)
-        replay_extra(ctx, mini, rec, k)
+    nproc = fl.nprocs(ctx.thorough)
+    for counts, fails in fl.parallel_map(_replay_chains, list(enumerate(recs)), nproc):
+        fl.merge_counts(ctx, counts)
+        mini.merge(fails)
     ctx.sample({"spec_behaviour_chain": recs[len(recs) // 2]})
 
     # ---- adapters: one TLC run checks the table and prints it
     arecs = mc_and_export(ctx, "Adapters", "Adapters_%s.cfg" % tag, ("Construct", "Invoke"), 5000)
     table = {}
     for rec in arecs:
-        replay_adapter(ctx, mini, rec)
         table[(rec["adapter"], rec["arg"], fl.caps_sig(rec["caps"]))] = rec["res"]
+    for counts, fails in fl.parallel_map(_replay_adapters, arecs, nproc):
+        fl.merge_counts(ctx, counts)
+        mini.merge(fails)
     ctx.sample({"spec_behaviour_adapter": arecs[len(arecs) // 3]})
 
     # ---- code -> spec
